@@ -85,6 +85,39 @@ def case_strategy(draw):
             "claims": draw(st.lists(st.sampled_from([True, True, False]), max_size=6))}
 
 
+@st.composite
+def game_strategy(draw):
+    """The same machines with the game, a ball save and a multiball configured; only player/physics operations."""
+    c = draw(case_strategy())
+    topo = c["topo"]
+    calm = draw(st.booleans())
+    if calm:
+        topo["launcher"]["cap"] = 1
+    topo["launcher"]["mechanical"] = topo["launcher"]["cap"] == 1 and draw(st.sampled_from([False, False, True]))
+    game = {"balls_per_game": draw(st.integers(1, 3)),
+            "ball_save": draw(st.one_of(st.none(), st.fixed_dictionaries({
+                "active_time": st.sampled_from(["2s", "8s", "30s"]), "auto_launch": st.booleans(),
+                "balls_to_save": st.sampled_from([1, 2, -1]), "eject_delay": st.sampled_from([0, 0, "700ms"]),
+                "use_lock": st.booleans()}))),
+            "multiball": draw(st.one_of(st.none(), st.fixed_dictionaries({
+                "ball_count": st.integers(2, 3), "ball_count_type": st.sampled_from(["total", "add"]),
+                "shoot_again": st.sampled_from(["0", "5s", "20s"]), "use_lock": st.booleans(),
+                "replace_balls_in_play": st.booleans()})))}
+    ops = [st.just(["start"])] * 3 + [st.tuples(st.just("drain"), st.sampled_from([50, 300, 1000, 2500])).map(list)] * 5
+    ops += [st.just(["pf_hit"])] * 2 + [st.just(["settle"]), st.just(["mb_start"]), st.just(["mb_start"]),
+                                          st.just(["mb_add"]), st.just(["bs_enable"]), st.just(["early_save"])]
+    if topo["lock"]:
+        ops += [st.tuples(st.just("lock_shot"), st.sampled_from([50, 400, 1500])).map(list)] * 3
+    if topo["launcher"]["mechanical"]:
+        ops += [st.tuples(st.just("plunge"), st.sampled_from([0, 100, 700]), st.booleans()).map(list)] * 4
+    op = st.one_of(*ops)
+    steps = [[["start"], draw(st.sampled_from(GAPS))]] + \
+        draw(st.lists(st.tuples(op, st.sampled_from(GAPS)).map(list), min_size=2, max_size=30))
+    # no harness-made lock claims under a game: a ball held back without telling the game is not something MPF's own
+    # lock devices do (they adjust balls_in_play)
+    return dict(c, topo=topo, steps=steps, game=game, calm=calm, claims=[])
+
+
 def _calm(c):
     # the trough must never feed the launcher while the launcher ejects (MPF only does that with a spare slot)
     c = dict(c, calm=True)
@@ -97,6 +130,25 @@ def calm_strategy():
 
 
 # --------------------------------------------------------------------------------------------- configuration
+
+def game_config(topo, game):
+    cfg = {"game": {"balls_per_game": game["balls_per_game"], "allow_start_with_ball_in_drain": True}}
+    bs, mb = game.get("ball_save"), game.get("multiball")
+    if bs:
+        cfg["ball_saves"] = {"bs": {"active_time": bs["active_time"], "enable_events": "ball_started, ev_bs_enable",
+                                    "early_ball_save_events": "ev_early_save", "auto_launch": bs["auto_launch"],
+                                    "balls_to_save": bs["balls_to_save"], "eject_delay": bs["eject_delay"]}}
+        if bs["use_lock"] and topo["lock"]:
+            cfg["ball_saves"]["bs"]["ball_locks"] = "bd_lock"
+    if mb:
+        cfg["multiballs"] = {"mb": {"ball_count": mb["ball_count"], "ball_count_type": mb["ball_count_type"],
+                                    "shoot_again": mb["shoot_again"], "start_events": "ev_mb_start",
+                                    "add_a_ball_events": "ev_mb_add",
+                                    "replace_balls_in_play": mb["replace_balls_in_play"]}}
+        if mb["use_lock"] and topo["lock"]:
+            cfg["multiballs"]["mb"]["ball_locks"] = "bd_lock"
+    return cfg
+
 
 def build_config(topo):
     n = topo["n"]
@@ -459,6 +511,9 @@ def run(case, focus=None):
     topo = case["topo"]
     out = {"c04": [], "c05": [], "classes": set(), "nontrivial": False, "error": None}
     patches = build_config(topo)
+    game = case.get("game")
+    if game:
+        patches.update(game_config(topo, game))
     with Rig("balls", patches=patches) as rig:
         m = rig.machine
         w = World(rig, topo, case["outcomes"], calm=bool(case.get("calm")))
@@ -600,6 +655,15 @@ def run(case, focus=None):
                         add(out["c05"], "rest:request-lost",
                             "at rest (%s) %d balls were requested for %s, %d were delivered and %d are queued" %
                             (where, r, tname, w.delivered[tname], queued), t=rig.now)
+            if game and m.game and not broken:
+                bip = m.game.balls_in_play
+                in_play = w.loose + w.devs["bd_launcher"].content + \
+                    (w.devs["bd_lock"].content if "bd_lock" in w.devs else 0)
+                home = sum(w.devs[n].content for n in ("bd_trough", "bd_outhole") if n in w.devs)
+                if bip > in_play and home > 0:
+                    add(out["c05"], "rest:ball-in-play-not-delivered",
+                        "at rest (%s) the game has %d balls in play, %d are physically in play (loose, launcher, lock) "
+                        "and %d wait in the trough/outhole" % (where, bip, in_play, home), t=rig.now)
             if pf.available_balls != pf.balls and not broken:
                 add(out["c05"], "rest:playfield-available-differs",
                     "at rest (%s) playfield.balls=%d available_balls=%d" % (where, pf.balls, pf.available_balls),
@@ -651,6 +715,17 @@ def run(case, focus=None):
                     requests["playfield"] += av
             elif kind == "collect":
                 m.ball_controller.collect_balls()
+            elif kind == "start":
+                w.sw("s_start", 1)
+                rig.advance(0.05)
+                w.sw("s_start", 0)
+                if m.game:
+                    w.classes.add("game running")
+            elif kind in ("mb_start", "mb_add", "bs_enable", "early_save"):
+                applied = bool(m.game)
+                if applied:
+                    m.events.post("ev_" + kind)
+                    w.classes.add("game op " + kind)
             elif kind == "drain":
                 applied = w.drain(op[1])
             elif kind == "lock_shot":
